@@ -25,7 +25,9 @@ Places == {"same", "other_scope", "outside", "other_task"}
 STREAM == 50          \* id standing for the stream's own scope / task group
 NOCTX == 93  DEFAULT == 91
 
-VARIABLES place, n, ending, nested, slow, kind, gsp, hc,   \* scenario (hc: the generator catches a cancellation that reaches it while suspended and yields the item anyway), chosen in Init (slow = k > 0: the generator suspends before
+VARIABLES place, n, ending, nested, slow, kind, gsp, hc, made,
+          \* made: "scope" - the stream is created inside scope S1; "bare" - outside every scope, by a task whose context is empty
+          \* scenario (hc: the generator catches a cancellation that reaches it while suspended and yields the item anyway), chosen in Init (slow = k > 0: the generator suspends before
                                                        \* item k - 1; gsp: it spawns a task through the context before its first item)
           pos,        \* items produced so far
           sst,        \* "fresh" | "open" | "pulling" | "draining" | "ended" | "closed" | "cancelled"
@@ -34,8 +36,8 @@ VARIABLES place, n, ending, nested, slow, kind, gsp, hc,   \* scenario (hc: the 
           sp,         \* the task the generator spawned: "none" | "run" | "done" | "cancelled"
           nops, obs
 
-vars == <<place, n, ending, nested, slow, kind, gsp, hc, pos, sst, s1done, called, sp, nops, obs>>
-scen == <<place, n, ending, nested, slow, kind, gsp, hc>>
+vars == <<place, n, ending, nested, slow, kind, gsp, hc, made, pos, sst, s1done, called, sp, nops, obs>>
+scen == <<place, n, ending, nested, slow, kind, gsp, hc, made>>
 
 (* what the consumer sees of its own context: <<state A, metrics scope, task group>> *)
 BUSY == 77
@@ -53,17 +55,19 @@ Init == /\ place \in Places /\ n \in 0..MaxItems /\ ending \in {"normal", "error
         /\ (kind = "raising" => n = 0 /\ ~nested /\ slow = 0 /\ ending = "normal")
         /\ gsp \in BOOLEAN /\ (gsp => n >= 1 /\ kind = "agen")
         /\ hc \in BOOLEAN /\ (hc => slow > 0)
+        /\ made \in {"scope", "bare"} /\ (made = "bare" => place # "same")
         /\ pos = 0 /\ sst = "fresh" /\ s1done = FALSE /\ called = FALSE /\ sp = "none" /\ nops = 0
         /\ obs = [res |-> <<"none", 0, 0, 0, 0>>, cons |-> Own, s1 |-> FALSE, call |-> <<0, 0, 0>>, sp |-> "none"]
 
+CreatorA == IF made = "bare" THEN DEFAULT ELSE 1     \* the state A current where the stream was created (none: the default)
 InNested(i) == nested /\ i = 1          \* the generator yields its 2nd item from inside a nested scope (A = 3)
 (* an item reports what the generator body saw when it produced it: <<"item", index, state A, metrics scope, task group>>
    (the nested scope is a synchronous one: it has no task group of its own) *)
-ItemOf(i) == <<"item", i, IF InNested(i) THEN 3 ELSE 1, IF InNested(i) THEN 3 ELSE STREAM, STREAM>>
-Completes == place # "same"              \* S1 was left before consumption started, except in "same"
+ItemOf(i) == <<"item", i, IF InNested(i) THEN 3 ELSE CreatorA, IF InNested(i) THEN 3 ELSE STREAM, STREAM>>
+Completes == place # "same" /\ made = "scope"   \* S1 was left before consumption started, except in "same" (no S1 at all for "bare")
 
 (* what the source saw when it was called: it is called within the stream's own scope *)
-CallView(c) == IF kind = "factory" /\ c THEN (IF Bug = "call_outside_scope" THEN <<1, 1, 1>> ELSE <<1, STREAM, STREAM>>) ELSE <<0, 0, 0>>
+CallView(c) == IF kind = "factory" /\ c THEN (IF Bug = "call_outside_scope" THEN <<1, 1, 1>> ELSE <<CreatorA, STREAM, STREAM>>) ELSE <<0, 0, 0>>
 Bound == nops < MaxItems + 4
 None5(k) == <<k, 0, 0, 0, 0>>
 O(res, blocked, s1, c, spv) == [res |-> res, cons |-> Cons(blocked), s1 |-> s1, call |-> CallView(c), sp |-> spv]
@@ -160,8 +164,8 @@ ItemsInOrder == /\ (obs.res[1] = "item" => obs.res[2] = pos - 1)
 (* (stated on the step that ends the stream) *)
 EndsWithError == [][(sst \in {"fresh", "open"} /\ sst' = "ended" /\ ending = "error" /\ kind # "raising" /\ pos = n) => obs'.res[1] = "err"]_vars
 (* C11: the generator body observes the state current where the stream was created *)
-GenSeesCreation == obs.res[1] = "item" => (obs.res[3] = (IF InNested(obs.res[2]) THEN 3 ELSE 1) /\ obs.res[5] = STREAM)
-CallSeesStreamScope == obs.call \in {<<0, 0, 0>>, <<1, STREAM, STREAM>>}
+GenSeesCreation == obs.res[1] = "item" => (obs.res[3] = (IF InNested(obs.res[2]) THEN 3 ELSE CreatorA) /\ obs.res[5] = STREAM)
+CallSeesStreamScope == obs.call \in {<<0, 0, 0>>, <<CreatorA, STREAM, STREAM>>}
 (* every task spawned into the stream's scope has finished once that scope has been left *)
 SpawnedSettled == sst \in {"ended", "closed", "cancelled"} => sp # "run"
 (* C11: the consumer's own state, metrics scope and task group are unaffected *)
